@@ -267,8 +267,7 @@ def handleCrash (c : Case) : Verdict :=
 
 /-! ### C10: completed full prune -/
 
-def dedupEntries (r : Repo) : List (ID × Entry) :=
-  (r.indexes.flatMap fun i => i.2.flatMap fun x => x.2.map fun e => (x.1, e)).eraseDups
+def dedupEntries (r : Repo) : List (ID × Entry) := distinctEntries r
 
 def handleFull (c : Case) : Verdict :=
   let t := parseTrace c
@@ -287,7 +286,9 @@ def handleFull (c : Case) : Verdict :=
     if aPacks != sortIDs (final.packs.map (·.1)) || aIdx != sortIDs (final.indexes.map (·.1)) then
       .differ "after-state" s!"model-packs={sortIDs (final.packs.map (·.1))} impl-packs={aPacks}" else
     -- the property on the implementation's own after-state
-    let ib := (indexBlobs final).map (·.2)
+    -- the index = the set of distinct entries: the same entry listed by two index files (left by an
+    -- interrupted index rewrite) is one stored copy, as in the loaded (merged) master index
+    let ib := (dedupEntries final).map (·.2.blob)
     if !(ib.all fun b => t.used.contains b) then .specfalse "C10:full:unreachable-blob-left-in-index" "" else
     if !(t.used.all fun b => ib.count b ≥ 1) then .specfalse "C10:full:used-blob-missing-from-index" "" else
     if !(t.used.all fun b => ib.count b = 1) then .specfalse "C10:full:blob-indexed-twice" "" else
@@ -345,7 +346,8 @@ def handleFull (c : Case) : Verdict :=
           (if s.pUnref > 0 then ["unindexed-packs"] else []) ++ (if s.pPartly > 0 then ["mixed-packs"] else []) ++
           (if s.pRepack > 0 then ["repack"] else []) ++ (if s.pRemove > 0 then ["remove-packs"] else []) ++
           (if pl.exclude.any (fun p => !packPresent t.r0 p) then ["missing-unneeded-packs"] else []) ++
-          (if s.pKeep > 0 then ["kept-packs"] else [])
+          (if s.pKeep > 0 then ["kept-packs"] else []) ++
+          (if (indexBlobs final).length != afterE.length then ["same-entry-in-two-index-files"] else [])
         .agree (gone != []) labels
 
 def handle (c : Case) : Verdict :=
